@@ -375,20 +375,26 @@ def documented(chk, P):
     repo = P.repo
     txt = open(os.path.join(repo, "docs", "reference", "potential_modifiers.rst"), encoding="utf-8").read()
     doc_mods = set(re.findall(r"^\.\. _modifier-(\w+):", txt, re.M))
+    if len(doc_mods) < 5:
+        raise AnalysisError("the layout of docs/reference/potential_modifiers.rst is not recognised (%d '.. _modifier-NAME:' labels found)" % len(doc_mods))
     I = F.make_interp(P)
     mr = I.instantiate(P.cls("atsim.potentials.config._modifier_registry", "Modifier_Registry"), [], {}, None)
     reg = F.registered_modifiers(I, mr, doc_mods)
     site = P.cls("atsim.potentials.config._modifier_registry", "Modifier_Registry").site_of("_register_standard")
-    chk.ob("C09.O8", "the registered modifiers are exactly the documented ones", reg == doc_mods and len(reg) >= 5, site=site, found=sorted(reg),
+    chk.ob("C09.O8", "the registered modifiers are exactly the documented ones", reg == doc_mods, site=site, found=sorted(reg),
            expect=sorted(doc_mods), key="C09.O8|modifiers")
     for name, comb in (("sum", "plus"), ("product", "product"), ("pow", "pow")):
         pass
     txt2 = open(os.path.join(repo, "docs", "reference", "potable_input.rst"), encoding="utf-8").read()
+    if "ref-potable-input-pymath" not in txt2 or "ref-potable-input-tabulation:" not in txt2:
+        raise AnalysisError("the layout of docs/reference/potable_input.rst is not recognised (pymath section labels)")
     sect = txt2[txt2.index("ref-potable-input-pymath"):txt2.index("ref-potable-input-tabulation:")]
     doc_fn = set(re.findall(r"^\s+\* `(\w+)\(", sect, re.M))
+    if len(doc_fn) < 25:
+        raise AnalysisError("the list of pymath functions in docs/reference/potable_input.rst is not recognised (%d entries found)" % len(doc_fn))
     pm = P.module("atsim.potentials.config._pymath")
     have = set(pymath_functions(F.make_interp(P), P))
-    chk.ob("C09.O8", "every documented pymath function exists in the _pymath module (%d documented)" % len(doc_fn), doc_fn <= have and len(doc_fn) >= 25,
+    chk.ob("C09.O8", "every documented pymath function exists in the _pymath module (%d documented)" % len(doc_fn), doc_fn <= have,
            site=pm.relpath, found=sorted(doc_fn - have) or None, expect="documented subset of defined", key="C09.O8|pymath")
 
 
